@@ -218,7 +218,7 @@ func registerTime(e *Engine) {
 		if ns.T == nil {
 			return fmt.Sprintf("T+%dns", ns.S64())
 		}
-		return SymStr{ex.ufStr("timestr", ns.T)}
+		return SymStr{T: ex.ufStr("timestr", ns.T)}
 	}
 	x["(time.Time).String"] = strOf
 	x["(time.Time).Format"] = strOf
@@ -242,7 +242,7 @@ func registerTime(e *Engine) {
 	x["(time.Duration).String"] = func(ex *Exec, c *frame, f *ssa.Function, a []Value) Value {
 		d := a[0].(Int)
 		if d.T != nil {
-			return SymStr{ex.ufStr("durstr", d.T)}
+			return SymStr{T: ex.ufStr("durstr", d.T)}
 		}
 		return fmt.Sprintf("%dns", d.S64())
 	}
